@@ -128,9 +128,11 @@ CHECKS = {
     text="Lean theorems about the model of the guards of fit (in call order, over an abstract description of the call): every call that is malformed in one of the listed ways is "
          "rejected with AssertionError and never accepted (malformed_rejected), a well-formed call passes every guard (wellformed_accepted), and the refit guard runs first so that a "
          "rejected call on a fitted object has touched nothing (refit_first). On the code: each malformed class injected at a random position for the three carvers and three "
-         "discretizer classes, on fresh and on fitted objects; exception type, and values_orders / to_json / transform before vs after the rejected call.",
-    ref="DESIGN.md section 8 C19", technique="Lean 4 proof (decision logic of the guard sequence) + fault injection of malformed inputs on the real code",
-    note=BASE_NOTE + " The mapping from a real call to the abstract description is harness code; __init__-time checks (both types, sort_by) are exercised on the code only (partial)."),
+         "discretizer classes (also two defects at once), on fresh and on fitted objects; exception type, and values_orders / to_json / transform before vs after the rejected call. "
+         "Model/code correspondence: for every call the harness measures the facts the guards look at on the very arguments it passes, the compiled model (validate.fit) says "
+         "which guard fires first, and the real outcome (accepted / AssertionError and its message) must agree, well-formed calls included.",
+    ref="DESIGN.md section 8 C19", technique="Lean 4 proof (decision logic of the guard sequence) + model/code correspondence of the guard sequence (outcome and first failing guard) + fault injection of malformed inputs on the real code",
+    note=BASE_NOTE + " The measurement of a call (abstract_call in harness/c19.py) is harness code; __init__-time checks (both types, sort_by) are exercised on the code only (partial)."),
  "C14": dict(
     text="Lean theorems about the model of the selection logic (_select_features with one ranking measure, the greedy association filters), for every measure table, association "
          "function, threshold and n_best: at most n_best features, returned features are input features with a defined measure, every returned feature's association with each earlier "
